@@ -55,6 +55,9 @@ type c17Case struct {
 	N     int    `json:"n,omitempty"`
 	Code  int64  `json:"code"` // graph: digits base 4+2n, entry 0 least significant; escape: case index
 	Depth int    `json:"depth"`
+	// Hist: the history of the image config: 0 one entry per layer, 1 none at all, 2 fewer
+	// entries than layers (both legal; the loader then falls back to one view per layer).
+	Hist int `json:"hist,omitempty"`
 	// States is the decoded graph, for the reader (ignored on replay).
 	States []string `json:"states,omitempty"`
 	// escape leg: the symlink (path relative to the root), its link name, and what layer 0
@@ -156,6 +159,18 @@ func c17GraphLayers(prefix string, states []int) (l0, l1 []tarimg.Entry) {
 // c17Image wraps the graph entries into the 3-layer image. The keep files make sure p/ and
 // q/ exist and never become empty (a directory emptied by whiteouts vanishes from the final
 // view, which is C04's finding, not this property's).
+// c17WithHistory sets the config history of a three-layer image according to mode (see
+// c17Case.Hist).
+func c17WithHistory(img tarimg.Image, mode int) tarimg.Image {
+	switch mode {
+	case 1:
+		img.OmitHistory = true
+	case 2:
+		img.History = []tarimg.History{{CreatedBy: "layer 0"}, {CreatedBy: "layer 1"}}
+	}
+	return img
+}
+
 func c17Image(l0, l1 []tarimg.Entry) tarimg.Image {
 	head := []tarimg.Entry{tarimg.D("p", 0o755), tarimg.F("p/keep", "k", 0o644), tarimg.D("q", 0o755), tarimg.F("q/keep", "k", 0o644)}
 	l0 = append(head, l0...)
@@ -462,7 +477,7 @@ func propC17(col *ev.Collector) func(cs c17Case) (ev.Outcome, error) {
 		}
 		states := c17Decode(cs.N, cs.Code)
 		l0, l1 := c17GraphLayers("g0", states)
-		ld, err := loadImage(c17Image(l0, l1), &require.FileRequirerAll{}, cs.Depth)
+		ld, err := loadImage(c17WithHistory(c17Image(l0, l1), cs.Hist), &require.FileRequirerAll{}, cs.Depth)
 		defer ld.Close()
 		if err != nil {
 			return ev.Outcome{}, fmt.Errorf("FromV1Image fails: %w", err)
@@ -522,13 +537,18 @@ func c17RunBatch(col *ev.Collector, job c17Job, depths []int) []c17Result {
 	img := c17Image(l0, l1)
 	bviews := overlay.Views(img.Layers)
 	for _, d := range depths {
-		ld, err := loadImage(img, &require.FileRequirerAll{}, d)
+		// the history form of the config rotates with the batch and the depth
+		hist := 0
+		if len(codes) > 0 {
+			hist = int((codes[0] + int64(d) + int64(n)) % 3)
+		}
+		ld, err := loadImage(c17WithHistory(img, hist), &require.FileRequirerAll{}, d)
 		if err != nil || len(ld.Chains) != 3 {
 			ld.Close()
 			if err == nil {
 				err = fmt.Errorf("expected 3 chain layers, got %d", len(ld.Chains))
 			}
-			out = append(out, c17Result{cs: c17Case{Leg: "graph", N: n, Code: codes[0], Depth: d}, err: fmt.Errorf("FromV1Image fails on a batch of %d graphs: %w", len(codes), err)})
+			out = append(out, c17Result{cs: c17Case{Leg: "graph", N: n, Code: codes[0], Depth: d, Hist: hist}, err: fmt.Errorf("FromV1Image fails on a batch of %d graphs: %w", len(codes), err)})
 			continue
 		}
 		chains := c17Chains(ld)
@@ -551,12 +571,14 @@ func c17RunBatch(col *ev.Collector, job c17Job, depths []int) []c17Result {
 			if cerr == nil && k == badGraph {
 				cerr = lerr
 			}
-			cs := c17Case{Leg: "graph", N: n, Code: code, Depth: d}
+			cs := c17Case{Leg: "graph", N: n, Code: code, Depth: d, Hist: hist}
 			if cerr != nil {
 				cs.States = c17StateNames(states[k])
 				cerr = fmt.Errorf("graph %v: %w", cs.States, cerr)
 			}
-			out = append(out, c17Result{cs: cs, o: c17Outcome(n, code, d, states[k], &tl), err: cerr})
+			oc := c17Outcome(n, code, d, states[k], &tl)
+			oc.Classes = append(oc.Classes, fmt.Sprintf("config_history_form_%d", hist))
+			out = append(out, c17Result{cs: cs, o: oc, err: cerr})
 		}
 		ld.Close()
 	}
